@@ -262,17 +262,26 @@ Definition wc_ref (c : call value) : M dict :=
   else mbind (seqm (aitems false (c_kwargs c))) (fun l1 =>
        match bind_partial value sg (c_args c) with
        | Raise e => fail ValidateExceptionC None
-       | Ok bound => mbind (seqm (aitems true bound)) (fun l2 => tail_m (l1 ++ l2))
+       | Ok (bound, _) => mbind (seqm (aitems true bound)) (fun l2 => tail_m (l1 ++ l2))
        end).
 
 Lemma bind_partial_raise : forall args e, bind_partial value sg args = Raise e -> e = TypeErrorC.
-Proof. unfold bind_partial. intros args e. destruct (Nat.ltb _ _); congruence. Qed.
+Proof. unfold bind_partial. intros args e. destruct (s_varpos sg); [discriminate|]. destruct (Nat.ltb _ _); congruence. Qed.
 
 Lemma useds_app : forall a b, useds (a ++ b) = useds a ++ useds b.
 Proof. intros. unfold useds. apply flat_map_app. Qed.
 
+(* from here on: functions without *args (the zip branch of the positional loop is not taken) *)
+Variable veq : value -> value -> bool.
+Hypothesis NV : s_varpos sg = false.
+
+Lemma bind_partial_nv : forall args bound star, bind_partial value sg args = Ok (bound, star) -> star = [].
+Proof.
+  unfold bind_partial. rewrite NV. intros args bound star. destruct (Nat.ltb _ _); [discriminate|]. intro H. now injection H.
+Qed.
+
 Theorem wrapper_content_ref : forall c,
-  wrapper_content value is_none rcfg rr sg env dc c = wc_ref c.
+  wrapper_content value is_none veq rcfg rr sg env dc c = wc_ref c.
 Proof.
   intro c. unfold wrapper_content, wc_ref. cbn [wc_phases reference_cfg run_phases andb].
   destruct (d_ignore_input dc) eqn:Ig; cbn [andb run_phase fst snd].
@@ -282,8 +291,9 @@ Proof.
     rewrite !mbind_ret_l. reflexivity.
   - rewrite process_ref, !mbind_assoc. apply mbind_ext. intro l1.
     rewrite !mbind_ret_l. cbn [fst snd app].
-    destruct (bind_partial value sg (c_args c)) as [bound|e] eqn:B.
-    + rewrite process_ref, !mbind_assoc. apply mbind_ext. intro l2.
+    destruct (bind_partial value sg (c_args c)) as [[bound star]|e] eqn:B.
+    + rewrite (bind_partial_nv _ _ _ B), mbind_ret_r.
+      rewrite process_ref, !mbind_assoc. apply mbind_ext. intro l2.
       rewrite !mbind_ret_l. cbn [fst snd].
       unfold tail_m. rewrite unused_loop_ref, !mbind_assoc, useds_app.
       apply mbind_ext. intro l3. rewrite !mbind_ret_l. cbn [fst snd].
